@@ -214,6 +214,33 @@ def c11():
             elif best > 6 * len(big) + 200000:
                 v.violation("parsing %d bytes (%s) took %d us (the bound is 6 us per byte + 0.2 s)" % (len(big), fname, best),
                             {"input_b64": b64(big), "family": fname, "us": best}, {"kind": "slow"})
+        # (3c) token-level mutants of real programs: a run of tokens deleted, a token duplicated, two neighbours swapped, a token replaced by another
+        #      token of the same text - near-grammatical inputs that byte mutations do not reach (e.g. an empty choice "+{}")
+        import typing_oracle as _ty
+        tokmut = 0
+        srcs = repo_texts() + [(os.path.basename(f), open(f).read()) for f in sorted(glob.glob(os.path.join(vlib.VERIF, "corpus", "typing", "*.grits")))]
+        for _ in range(2500 if tr == "quick" else 40000):
+            name, text = rng.choice(srcs)
+            toks = _ty.tokens(text)
+            if len(toks) < 4:
+                continue
+            k = rng.choice(["del", "del", "del", "dup", "swap", "repl"])
+            i = rng.randrange(len(toks))
+            t2 = list(toks)
+            if k == "del":
+                del t2[i:i + rng.choice([1, 2, 3, 3, 4])]
+            elif k == "dup":
+                t2.insert(i, t2[i])
+            elif k == "swap" and i + 1 < len(t2):
+                t2[i], t2[i + 1] = t2[i + 1], t2[i]
+            else:
+                t2[i] = rng.choice(toks)
+            x = (" ".join(t2) + "\n").encode()
+            rp = w.call({"op": "parse", "b64": b64(x)})
+            tokmut += 1
+            if rp.get("hang") or "crash" in rp or "panic" in rp:
+                v.violation("ParseString does not return a program or an error on a token-level mutant of %s (%s at token %d): %s" % (name, k, i, str(rp.get("panic") or rp.get("crash") or "hang")[:160]),
+                            {"input_b64": b64(x), "source": name}, {"kind": "tok-hang" if rp.get("hang") else "tok-crash"})
         # (4) truncations and byte mutations of real programs
         trunc = 0
         texts = repo_texts()
@@ -234,7 +261,7 @@ def c11():
         cov = {"states": max(1, r["distinct"] + rl["distinct"]), "transitions": max(1, r["generated"] + rl["generated"]),
                "traces_validated_against_impl": calls - mism, "samples": samples, "tapes_enumerated": len(pairs), "max_tape_length": n,
                "alphabet_classes": len(REPS), "real_parse_calls": calls, "token_stream_mismatches": mism, "pumped_inputs": pumped,
-               "truncated_or_mutated_texts": trunc, "slowest_parse_us": slowest, "pumped_length_bytes": target, "slowest_pumped_us_per_byte": round(slowest_per_byte, 4),
+               "truncated_or_mutated_texts": trunc, "token_level_mutants": tokmut, "slowest_parse_us": slowest, "pumped_length_bytes": target, "slowest_pumped_us_per_byte": round(slowest_per_byte, 4),
                "liveness_checked_up_to_length": min(n, 3), "exhaustive": True}
         vlib.write_evidence("C11", "model_checking", cov, time.time() - t0, len(v.violations),
                             ["all inputs over the 17 character classes of Scanner.tla up to the stated length (exhaustive), concretised with one canonical and random representatives per class; longer inputs only by pumping and by truncating / mutating real programs",
